@@ -286,3 +286,16 @@ class UpdateSubscriptionsInterleaved(UpdateSubscriptions):
         )
 
     ensures = [every_characteristic_requested_once]
+
+
+# ------------------------------------------------------------------------------------------------- bounded stand-in
+
+
+def _native(tier, seed):
+    from harness import listeners
+
+    return listeners.run(tier, seed, "C12/aiohomekit.controller#native")
+
+
+CallbackListeners.bounded_run = staticmethod(_native)
+CallbackListeners.bound_note = "real listener dispatch with raising listeners and real event bodies (valid, empty, non-UTF-8, non-JSON, random bytes)"
